@@ -228,6 +228,22 @@ where
             };
             // Create new identifier buffer.
             let mut raw_identifier_buffer = self.location.identifier.as_vec();
+            // Find where the removed component is stored within `current_component_bytes`. It is
+            // preceded by exactly the components of this entity that come before it in the
+            // registry.
+            let mut preceding_identifier_buffer = raw_identifier_buffer.clone();
+            for (byte_index, byte) in preceding_identifier_buffer.iter_mut().enumerate() {
+                if byte_index > component_index / 8 {
+                    *byte = 0;
+                } else if byte_index == component_index / 8 {
+                    *byte &= (1 << (component_index % 8)) - 1;
+                }
+            }
+            let removed_component_offset =
+                // SAFETY: `preceding_identifier_buffer` was obtained from a valid identifier, so
+                // it is of the proper length (which is `(R::LEN + 7) / 8`).
+                unsafe { archetype::Identifier::<Registry>::new(preceding_identifier_buffer) }
+                    .size_of_components();
             // Unset the component's bit.
             // SAFETY: `component_index` is guaranteed to be a valid index to a bit in
             // `raw_identifier_buffer`.
@@ -272,6 +288,23 @@ where
                     .modify_location_unchecked(entity_identifier, location);
             }
             self.location = location;
+
+            // Drop the removed component. This is done last, so that the world is already in a
+            // consistent state if dropping the component panics.
+            drop(
+                // SAFETY: `current_component_bytes` contains a valid, properly initialized value
+                // of type `Component` at `removed_component_offset`, since the component was
+                // contained in the entity's previous archetype. That value was skipped when the
+                // remaining components were moved into the new archetype, so this is the only
+                // place it is read.
+                unsafe {
+                    current_component_bytes
+                        .as_ptr()
+                        .add(removed_component_offset)
+                        .cast::<Component>()
+                        .read_unaligned()
+                },
+            );
         }
     }
 
